@@ -39,6 +39,13 @@ pub struct Profile {
     pub max_classes: usize,
     pub max_funs: usize,
     pub feeny_names: bool,
+    /// multiplier for method-call candidates found in a strict ancestor
+    pub w_inherited: usize,
+    pub w_meth: u32,
+    pub w_field: u32,
+    pub w_parent_obj: u32,
+    /// start with classes, instances, aliases and arrays of instances (C14)
+    pub object_prologue: bool,
 }
 
 impl Profile {
@@ -65,6 +72,11 @@ impl Profile {
             max_classes: 4,
             max_funs: 5,
             feeny_names: false,
+            w_inherited: 2,
+            w_meth: 7,
+            w_field: 5,
+            w_parent_obj: 10,
+            object_prologue: false,
         }
     }
     pub fn discard_heavy() -> Profile {
@@ -91,7 +103,14 @@ impl Profile {
         let mut p = Profile::full();
         p.name = "object";
         p.max_classes = 6;
-        p.fault = 24;
+        p.fault = 40;
+        p.w_inherited = 8;
+        p.max_top = 8;
+        p.w_meth = 34;
+        p.w_field = 16;
+        p.w_parent_obj = 34;
+        p.object_prologue = true;
+        p.budget = 260;
         p
     }
     pub fn alloc_heavy() -> Profile {
@@ -250,6 +269,34 @@ impl<'t, 'a> Gen<'t, 'a> {
                 let e = self.leaf(&ty);
                 self.define(&name, ty, false);
                 prog.push(E::Let(name, bx(e)));
+            }
+        }
+        if self.prof.object_prologue {
+            let nc = 2 + self.t.pick(3);
+            for _ in 0..nc {
+                if self.classes.len() < self.prof.max_classes {
+                    self.new_class();
+                }
+            }
+            prog.append(&mut self.pending);
+            let ks: Vec<usize> = (0..self.classes.len()).rev().take(4).collect();
+            for k in ks {
+                let e = self.construct(k, 2);
+                prog.append(&mut self.pending);
+                // the name is chosen after the value: the value may itself define variables
+                let name = self.fresh_name();
+                self.define(&name, Ty::Obj(k), false);
+                prog.push(E::Let(name.clone(), bx(e)));
+                if self.t.chance(150) {
+                    let al = self.fresh_name();
+                    self.define(&al, Ty::Obj(k), false);
+                    prog.push(E::Let(al, bx(E::Var(name.clone()))));
+                }
+                if self.prof.arrays && self.t.chance(100) {
+                    let ar = self.fresh_name();
+                    self.define(&ar, Ty::Arr(Box::new(Ty::Obj(k)), 2), false);
+                    prog.push(E::Let(ar, bx(E::Array(bx(E::Int(2)), bx(E::Var(name.clone()))))));
+                }
             }
         }
         for _ in 0..n {
@@ -475,6 +522,36 @@ impl<'t, 'a> Gen<'t, 'a> {
         if !self.t.chance(20) {
             return None;
         }
+        // object-model faults when classes exist
+        if self.prof.objects && !self.classes.is_empty() && self.t.chance(if self.prof.w_inherited > 4 { 170 } else { 60 }) {
+            let ks: Vec<usize> = (0..self.classes.len()).filter(|k| self.obj_available(*k)).collect();
+            if !ks.is_empty() {
+                let k = ks[self.t.pick(ks.len())];
+                let methods = self.effective_methods(k);
+                let recv = self.construct(k, 1);
+                let (name, e): (&str, E) = match self.t.pick(4) {
+                    0 if !methods.is_empty() => {
+                        let (m, _) = methods[self.t.pick(methods.len())].clone();
+                        let mut args: Vec<E> = m.params.iter().map(|p| self.leaf(p)).collect();
+                        args.push(E::Int(0));
+                        ("method-arity-plus", E::MCall(bx(recv), m.name.clone(), args))
+                    }
+                    1 if methods.iter().any(|(m, _)| !m.params.is_empty()) => {
+                        let (m, _) = methods.iter().find(|(m, _)| !m.params.is_empty()).unwrap().clone();
+                        let mut args: Vec<E> = m.params.iter().map(|p| self.leaf(p)).collect();
+                        args.pop();
+                        ("method-arity-minus", E::MCall(bx(recv), m.name.clone(), args))
+                    }
+                    2 => ("unknown-field", E::Field(bx(recv), "nofield".into())),
+                    _ => match self.chain_end(k) {
+                        Parent::Null => ("unknown-method-object", E::MCall(bx(recv), "nometh".into(), vec![])),
+                        _ => ("unknown-method-via-parent", E::MCall(bx(recv), "nometh".into(), vec![E::Int(1)])),
+                    },
+                };
+                self.fault = Some(name.to_string());
+                return Some(e);
+            }
+        }
         let kinds = 16;
         let (name, e): (&str, E) = match self.t.pick(kinds) {
             0 => ("unknown-variable", E::Var(self.unique("nope"))),
@@ -522,8 +599,8 @@ impl<'t, 'a> Gen<'t, 'a> {
         let has_var = !self.vars_of(ty, false).is_empty();
         let has_wvar = !self.vars_of(ty, true).is_empty();
         let w_fun = if p.functions { 7 } else { 0 };
-        let w_meth = if p.objects { 7 } else { 0 };
-        let w_field = if p.objects { 5 } else { 0 };
+        let w_meth = if p.objects { p.w_meth } else { 0 };
+        let w_field = if p.objects { p.w_field } else { 0 };
         let w_index = if p.arrays { 5 } else { 0 };
         // 0 leaf, 1 var, 2 specific, 3 if, 4 block, 5 call, 6 method, 7 let-expr, 8 assign-expr,
         // 9 field read, 10 index read, 11 field-set expr
@@ -828,7 +905,7 @@ impl<'t, 'a> Gen<'t, 'a> {
     fn new_class(&mut self) -> usize {
         self.creating += 1;
         let k0 = self.classes.len();
-        let parent = match self.t.weighted(&[10, 4, 2, if self.prof.arrays { 4 } else { 0 }, if k0 > 0 { 10 } else { 0 }]) {
+        let parent = match self.t.weighted(&[10, 4, 2, if self.prof.arrays { 4 } else { 0 }, if k0 > 0 { self.prof.w_parent_obj } else { 0 }]) {
             0 => Parent::Null,
             1 => Parent::Int,
             2 => Parent::Bool,
@@ -962,9 +1039,12 @@ impl<'t, 'a> Gen<'t, 'a> {
             if !self.obj_available(k) {
                 continue;
             }
-            for (m, _) in self.effective_methods(k) {
+            for (m, hops) in self.effective_methods(k) {
                 if &m.ret == ty {
-                    cands.push((k, m));
+                    let copies = if hops > 0 { self.prof.w_inherited.max(1) } else { 1 };
+                    for _ in 0..copies {
+                        cands.push((k, m.clone()));
+                    }
                 }
             }
         }
@@ -1211,8 +1291,9 @@ impl<'t, 'a> Gen<'t, 'a> {
             if d > 0 && p.loops { 8 } else { 0 },
             if d > 0 { p.w_block } else { 0 },
             if p.arrays { 8 } else { 0 },
-            if p.objects { 6 } else { 0 },
+            if p.objects { 6 + p.w_field / 2 } else { 0 },
             p.w_discard,
+            if p.object_prologue { 16 } else { 0 },
         ];
         match self.t.weighted(&weights) {
             0 => out.push(self.print_stmt(d)),
@@ -1289,6 +1370,44 @@ impl<'t, 'a> Gen<'t, 'a> {
                 let ty = self.prim_ty();
                 let e = self.field_set(&ty, d.max(1));
                 out.push(e);
+            }
+            9 => {
+                // mutate through one place expression, observe through another (aliases)
+                let mut cands: Vec<(usize, String, Ty)> = vec![];
+                for k in 0..self.classes.len() {
+                    if self.vars_of(&Ty::Obj(k), false).len() >= 2 {
+                        for (n, t) in &self.classes[k].fields {
+                            if matches!(t, Ty::Int | Ty::Bool | Ty::Null) {
+                                cands.push((k, n.clone(), t.clone()));
+                            }
+                        }
+                    }
+                }
+                if cands.is_empty() {
+                    out.push(self.print_stmt(d));
+                } else {
+                    let (k, f, ty) = cands[self.t.pick(cands.len())].clone();
+                    let place = |g: &mut Gen| -> E {
+                        let vars = g.vars_of(&Ty::Obj(k), false);
+                        let v = E::Var(vars[g.t.pick(vars.len())].name.clone());
+                        let arrs: Vec<VarInfo> = g
+                            .visible()
+                            .into_iter()
+                            .filter(|x| matches!(&x.ty, Ty::Arr(e, n) if **e == Ty::Obj(k) && *n > 0))
+                            .collect();
+                        if !arrs.is_empty() && g.t.chance(70) {
+                            index(E::Var(arrs[g.t.pick(arrs.len())].name.clone()), E::Int(0))
+                        } else {
+                            v
+                        }
+                    };
+                    let p1 = place(self);
+                    let val = self.leaf(&ty);
+                    out.push(E::FieldSet(bx(p1), f.clone(), bx(val)));
+                    let p2 = place(self);
+                    self.tag += 1;
+                    out.push(E::Print(format!("{}: ~\\n", self.tag), vec![E::Field(bx(p2), f)]));
+                }
             }
             _ => {
                 // expression statement: value discarded
